@@ -22,11 +22,30 @@ from .provenance import SINKS, NEW_GROUP
 EMITTERS = set(SINKS) | {"force_complete_mapping", "force_functional_mapping", "force_injective_mapping",
                          "force_surjective_mapping", "force_nondecreasing_mapping"}
 WRAPPERS = {"list", "tuple", "iter", "sorted"}
+NO_LITERAL_LIST = {"force_complete_mapping", "force_functional_mapping", "force_injective_mapping", "force_surjective_mapping",
+                   "force_nondecreasing_mapping"}
 
 
 class Emission:
     def __init__(self, quants, guards, builder, args, node):
-        # renumber the bound variables q<i> in order of appearance in this emission
+        self.builder = builder
+        self.node = node
+        best = None
+        for order in self._orders(list(quants)):
+            cand = self._render(order, guards, builder, args)
+            if best is None or cand < best:
+                best = cand
+        self.quants, self.guards, self.args = [list(x) for x in best]
+        self.quants = [tuple(q) for q in self.quants]
+
+    @staticmethod
+    def _render(quants, guards, builder, args):
+        """rename the bound variables q<i> in order of appearance (quantifiers, then guards, then arguments); canonical guards and
+        literal order"""
+        guards = sorted({a for g in guards for a in guard_atoms(g)} - {"True"})
+        args = list(args)
+        if args and builder not in NO_LITERAL_LIST:
+            args[0] = canon_literals(args[0])
         order = []
         for t, d in quants:
             for m in re.findall(r"\bq\d+\b", t):
@@ -40,14 +59,48 @@ class Emission:
 
         def rn(x):
             return re.sub(r"\bq\d+\b", lambda m: ren.get(m.group(0), m.group(0)), x).replace("#", "q")
-        self.quants = [(rn(t), rn(d)) for t, d in quants]      # [(target_text, domain_text)]
-        self.guards = [rn(g) for g in guards]                  # [text]
-        self.builder = builder
-        self.args = [rn(a) for a in args]                      # [text]
-        self.node = node
+        q = tuple((rn(t), rn(d)) for t, d in quants)
+        g = tuple(sorted({a for x in guards for a in guard_atoms(rn(x))}))
+        a = [rn(x) for x in args]
+        if a and builder not in NO_LITERAL_LIST:
+            a[0] = canon_literals(a[0])
+        return (q, g, tuple(a))
+
+    @staticmethod
+    def _orders(quants):
+        """canonical orders of the quantifiers: repeatedly take, among those whose domain mentions no variable bound by a quantifier
+        not yet taken, one with the smallest masked text; every choice among equal masked texts is explored (at most 24 orders), and
+        the smallest rendering wins -- so neither the nesting order of independent loops nor which of two loops over the same
+        domain comes first matters"""
+        def qv(t):
+            return set(re.findall(r"\bq\d+\b", t))
+
+        def mask(i, rest):
+            return (re.sub(r"\bq\d+\b", "q", rest[i][1]), re.sub(r"\bq\d+\b", "q", rest[i][0]))
+        out = []
+
+        def go(done, rest):
+            if len(out) >= 24:
+                return
+            if not rest:
+                out.append(done)
+                return
+            unbound = set()
+            for t, d in rest:
+                unbound |= qv(t)
+            ready = [i for i, (t, d) in enumerate(rest) if not (qv(d) & unbound)]
+            if not ready:
+                out.append(done + rest)
+                return
+            m = min(mask(i, rest) for i in ready)
+            for i in ready:
+                if mask(i, rest) == m:
+                    go(done + [rest[i]], rest[:i] + rest[i + 1:])
+        go([], quants)
+        return out or [quants]
 
     def key(self):
-        return (tuple(self.quants), tuple(sorted(self.guards)), self.builder, tuple(self.args))
+        return (tuple(self.quants), tuple(self.guards), self.builder, tuple(self.args))
 
     def text(self):
         q = " ".join("for %s in %s" % (t, d) for t, d in self.quants)
@@ -56,6 +109,83 @@ class Emission:
 
     def __repr__(self):
         return self.text()
+
+
+NEG_OP = {ast.Eq: ast.NotEq, ast.NotEq: ast.Eq, ast.Lt: ast.GtE, ast.GtE: ast.Lt, ast.Gt: ast.LtE, ast.LtE: ast.Gt,
+          ast.In: ast.NotIn, ast.NotIn: ast.In, ast.Is: ast.IsNot, ast.IsNot: ast.Is}
+OP_TEXT = {ast.Eq: "==", ast.NotEq: "!=", ast.Lt: "<", ast.LtE: "<=", ast.In: "in", ast.NotIn: "not in", ast.Is: "is", ast.IsNot: "is not"}
+
+
+def canon_guard(node, neg=False):
+    """condition -> list of canonical conjunct texts (negation pushed inwards, `>` turned into `<`, operands of symmetric
+    operators and of `or` sorted): `not (a != b)` and `b == a` give the same text"""
+    if isinstance(node, ast.UnaryOp) and isinstance(node.op, ast.Not):
+        return canon_guard(node.operand, not neg)
+    if isinstance(node, ast.BoolOp):
+        is_and = isinstance(node.op, ast.And) != neg
+        parts = [canon_guard(v, neg) for v in node.values]
+        if is_and:
+            return [t for p in parts for t in p]
+        texts = sorted(p[0] if len(p) == 1 else "(" + " and ".join(sorted(p)) + ")" for p in parts)
+        return ["(" + " or ".join(texts) + ")"]
+    if isinstance(node, ast.Compare) and len(node.ops) == 1:
+        op = type(node.ops[0])
+        if neg:
+            op = NEG_OP[op]
+        l, r = src(node.left), src(node.comparators[0])
+        if op is ast.Gt:
+            op, l, r = ast.Lt, r, l
+        elif op is ast.GtE:
+            op, l, r = ast.LtE, r, l
+        elif op in (ast.Eq, ast.NotEq) and r < l:
+            l, r = r, l
+        return ["%s %s %s" % (l, OP_TEXT[op], r)]
+    if isinstance(node, ast.Constant) and isinstance(node.value, bool):
+        return [str(node.value != neg)]
+    return [src(ast.UnaryOp(op=ast.Not(), operand=node))] if neg else [src(node)]
+
+
+def guard_atoms(text, neg=False):
+    try:
+        return canon_guard(ast.parse(text, mode="eval").body, neg)
+    except SyntaxError:
+        return ["not (%s)" % text] if neg else [text]
+
+
+def canon_literals(text):
+    """argument that is a list of literals: a `+` chain of list displays / comprehensions -> single elements sorted in one display,
+    then the other parts sorted (the order of literals in a clause or in a cardinality / parity constraint is immaterial)"""
+    try:
+        e = ast.parse(text, mode="eval").body
+    except SyntaxError:
+        return text
+    parts = []
+
+    def flat(n):
+        if isinstance(n, ast.BinOp) and isinstance(n.op, ast.Add):
+            flat(n.left)
+            flat(n.right)
+        else:
+            parts.append(n)
+    flat(e)
+    if not any(isinstance(p, (ast.List, ast.ListComp)) for p in parts):
+        return text
+    singles, spreads = [], []
+    for p in parts:
+        if isinstance(p, ast.List):
+            singles += [src(x) for x in p.elts]
+        else:
+            t, seen = src(p), []
+            for m in re.findall(r"\bc\d+\b", t):
+                if m not in seen:
+                    seen.append(m)
+            ren = {m: "#%d" % i for i, m in enumerate(seen)}          # comprehension variables numbered per part
+            spreads.append(re.sub(r"\bc\d+\b", lambda m: ren[m.group(0)], t).replace("#", "c"))
+    out = []
+    if singles or not spreads:
+        out.append("[" + ", ".join(sorted(singles)) + "]")
+    out += sorted(spreads)
+    return " + ".join(out)
 
 
 def label_stem(label_expr):
@@ -140,6 +270,7 @@ class Extractor:
         self.inline = dict(extra_inline or {})
         self.emissions = []
         self.qcount = 0
+        self.mutated = set()
         self._prepare(group_names or {})
 
     def _prepare(self, group_names):
@@ -154,6 +285,7 @@ class Extractor:
                     assigns[s.targets[0].id] = s.value
             elif isinstance(s, (ast.AugAssign,)):
                 tg += [n.id for n in ast.walk(s.target) if isinstance(n, ast.Name) and isinstance(n.ctx, ast.Store)]
+                self.mutated |= set(tg)
                 tg += tg
             for c in ast.walk(s):
                 # a name that is mutated in place (x.append(..), x[i] = ..) is not a constant to inline
@@ -164,8 +296,10 @@ class Extractor:
                         base = base.value
                     if isinstance(base, ast.Name):
                         counts[base.id] = counts.get(base.id, 0) + 2
+                        self.mutated.add(base.id)
                 if isinstance(c, ast.Subscript) and isinstance(c.ctx, ast.Store) and isinstance(c.value, ast.Name):
                     counts[c.value.id] = counts.get(c.value.id, 0) + 2
+                    self.mutated.add(c.value.id)
             if isinstance(s, ast.For):
                 for n in ast.walk(s.target):
                     if isinstance(n, ast.Name):
@@ -258,7 +392,8 @@ class Extractor:
             elif isinstance(s, ast.Try):
                 self._block(s.body, quants, guards, local)
             elif isinstance(s, ast.Assign) and len(s.targets) == 1 and isinstance(s.targets[0], ast.Name) and \
-                    s.targets[0].id not in self.inline and s.targets[0].id not in self.rename and quants:
+                    s.targets[0].id not in self.inline and s.targets[0].id not in self.rename and quants and \
+                    s.targets[0].id not in self.mutated:
                 # a local computed inside a loop: inline it for the rest of this block
                 local = dict(local)
                 val = copy.deepcopy(s.value)
@@ -296,19 +431,52 @@ class Extractor:
                         out[name] = "{if %s: %s else: %s}" % (self._n(s.test, local), a, b)
         for i, s in enumerate(stmts[:idx]):
             if isinstance(s, ast.Assign) and len(s.targets) == 1 and isinstance(s.targets[0], ast.Name) and \
-                    isinstance(s.value, ast.List):
+                    s.targets[0].id in self.mutated and s.targets[0].id not in self.rename:
                 name = s.targets[0].id
-                parts = [self._n(s.value, local)] if s.value.elts else []
+                empty = isinstance(s.value, ast.List) and not s.value.elts
+                parts = [] if empty else [self._n(s.value, local)]
                 ok = True
+                straight = True
+                concat = [] if empty else [self._n(s.value, local)]
                 for b in stmts[i + 1:idx]:
                     t = self._build_text(b, name, local)
                     if t is None:
                         ok = False
                         break
                     parts += t
+                    if t:
+                        c = self._straight(b, name, local)
+                        if c is None:
+                            straight = False
+                        else:
+                            concat.append(c)
                 if ok and name not in out:
-                    out[name] = "{" + "; ".join(parts) + "}"
+                    # only appends / extends / += in a straight line: the same list as the concatenation
+                    out[name] = " + ".join(concat) if (straight and concat) else "{" + "; ".join(parts) + "}"
         return out
+
+    def _straight(self, s, name, local):
+        if isinstance(s, ast.Expr) and isinstance(s.value, ast.Call) and isinstance(s.value.func, ast.Attribute) and \
+                src(s.value.func.value) == name and len(s.value.args) == 1:
+            a = self._n(s.value.args[0], local)
+            if s.value.func.attr == "append":
+                return "[%s]" % a
+            if s.value.func.attr == "extend":
+                return a
+        if isinstance(s, ast.AugAssign) and isinstance(s.op, ast.Add) and src(s.target) == name:
+            return self._n(s.value, local)
+        if isinstance(s, ast.For) and not s.orelse and len(s.body) == 1:
+            # for t in D: [if c:] name.append(e)   ==   [e for t in D [if c]]
+            b, ifs = s.body[0], []
+            while isinstance(b, ast.If) and not b.orelse and len(b.body) == 1:
+                ifs.append(b.test)
+                b = b.body[0]
+            if isinstance(b, ast.Expr) and isinstance(b.value, ast.Call) and isinstance(b.value.func, ast.Attribute) and \
+                    src(b.value.func.value) == name and b.value.func.attr == "append" and len(b.value.args) == 1 and \
+                    not any(isinstance(n, ast.Name) and n.id == name for n in ast.walk(b.value.args[0])):
+                comp = ast.ListComp(elt=b.value.args[0], generators=[ast.comprehension(target=s.target, iter=s.iter, ifs=ifs, is_async=0)])
+                return self._n(ast.fix_missing_locations(ast.copy_location(comp, s)), local)
+        return None
 
     def _build_text(self, s, name, local):
         """normal-form text of a statement that only appends to ``name`` (or does not touch it); None if it does more"""
@@ -318,6 +486,9 @@ class Extractor:
         if isinstance(s, ast.Expr) and isinstance(s.value, ast.Call) and isinstance(s.value.func, ast.Attribute) and \
                 src(s.value.func.value) == name and s.value.func.attr in ("append", "extend") and len(s.value.args) == 1:
             return ["%s(%s)" % (s.value.func.attr, self._n(s.value.args[0], local))]
+        if isinstance(s, ast.AugAssign) and isinstance(s.op, ast.Add) and src(s.target) == name and \
+                not any(isinstance(n, ast.Name) and n.id == name for n in ast.walk(s.value)):
+            return ["extend(%s)" % self._n(s.value, local)]
         if isinstance(s, ast.For):
             loc = self._bind_target(s.target, local)
             inner = []
@@ -387,7 +558,7 @@ def spec(text):
     m = re.match(r"(\w+)\((.*)\)$", call.strip())
     builder, argtxt = m.group(1), m.group(2)
     args = _split_args(argtxt)
-    return (tuple(quants), tuple(sorted(_canon(g) for g in guards)), builder, tuple(_canon(a) for a in args))
+    return Emission(quants, [_canon(g) for g in guards], builder, [_canon(a) for a in args], None).key()
 
 
 def _canon(t):
